@@ -84,6 +84,9 @@ def _work(units):
                 acc.violation({"kind": "choice:equiv", "case": case, "id": uid, "observed": short(repr((r1, r2))),
                                "why": "weights and their running totals must select the same element"})  # fmt: skip
             acc.outcomes.add(f"{n}:{ex}")
+        if list(pop) != list(snap[0]) or ws != snap[1] or cum != snap[2]:
+            acc.violation({"kind": "choice:mutated", "case": case, "why": f"arguments were modified by the call (weights {short(repr(ws), 60)}, running totals {short(repr(cum), 60)})"})
+            ws, cum = list(snap[1]), list(snap[2])  # (restore, so that the remaining cases are still meaningful)
         # the same through the MD5 seam: positions at / next to every exact boundary, 0 and 2^32-1
         ks = sorted(ew.boundaries(fws) | {0, (1 << 32) - 1})[:40]
         with hs:
@@ -122,6 +125,7 @@ def _work(units):
                 if a[0] != "ok" or b[0] != "ok" or a[1] is not b[1] or a[1] is not pop[ex]:
                     acc.violation({"kind": "choice:noweights", "case": case, "id": uid, "observed": short(repr((a, b))),
                                    "why": f"no weights must equal [1]*n: element {ex}"})  # fmt: skip
+        ws, cum = list(snap[1]), list(snap[2])  # (whatever a broken implementation did to the lists above: reported there)
         # malformed argument combinations
         bad = [
             ("len+1", dict(weights=ws + [1]), "ValueError"),
